@@ -35,12 +35,15 @@ var clientStreamOpen = fmt.Sprintf("<?xml version='1.0'?><stream:stream to='%%s'
 func (t *XMPPTransport) Connect() (string, error) {
 	var err error
 
-	t.conn, err = net.DialTimeout("tcp", t.Config.Address, time.Duration(t.Config.ConnectTimeout)*time.Second)
+	// Dial into a local variable: a failed dial must not nil out the connection that the goroutines of the
+	// previous session (keepalive, a Close in progress) may still be using.
+	conn, err := net.DialTimeout("tcp", t.Config.Address, time.Duration(t.Config.ConnectTimeout)*time.Second)
 	if err != nil {
 		// The server may accept connections again later: this is not a permanent error
 		return "", NewConnError(err, false)
 	}
 
+	t.conn = conn
 	// A new TCP connection is never secure, whatever the previous one was
 	t.isSecure = false
 	// One slot: the stream close of the server may arrive before, or without, a call to Close
